@@ -408,13 +408,11 @@ Theorem c04_extract_onedir_refines : forall K V (cmp : K -> K -> comparison), Or
   abs_tree (t_extract_close cmp ksize vsize fixed_k fixed_v page_size sep entry_eqb x) = ext_finish st.
 Proof. exact (@t_extract_onedir_refines). Qed.
 
-(* FULL STATEMENT, NOT A THEOREM (missing): c04_extract_mixed_refines -- the same conclusion for EVERY script
-   (list bool), i.e. with `repeat front n` replaced by an arbitrary `script` in both lines above.  What is missing is
-   the double-ended protocol of RangeMut: park (a live end becomes Parked / Pending with a leaf snapshot, its open run
-   spliced), activate (reseek by the own bound, re-attach the batch when the landed leaf equals the snapshot, else
-   resolve_batch = delete by key), entry_in_range against the PEER's moving bound, close with one end pending.
-   An instance is computed below (c04_instance_extract_mixed_agrees); per run the model is compared with redb (S2)
-   and with the specification (SPEC! marker). *)
+(* The same conclusion for EVERY script (list bool), i.e. with `repeat front n` replaced by an arbitrary `script`, is
+   c04_extract_mixed_refines (proved in round 4, stated further below next to c04_program_refines): it covers the
+   double-ended protocol of RangeMut -- park, activate (snapshot match or resolve_batch), entry_in_range against the
+   PEER's moving bound, close with one end pending.  Per run the model is also compared with redb (S2) and with the
+   specification (SPEC! marker). *)
 
 (* PARTIAL (explicit op coverage).  Covered constructors of ProgramX.xop:
      XBase  (every read query, insert, remove, pop_first, pop_last),
@@ -437,8 +435,8 @@ Proof. exact (@program_x_refines_lemma). Qed.
 (* PARTIAL (explicit op coverage): every constructor of ProgramX.xop as above (XE) PLUS extract_if / extract_from_if
    consumed from one end: XExtractOne lo hi p front n = the iterator created over [lo, hi], `n` calls of next()
    (front = true) or next_back() (front = false), then dropped; output = the yielded entries.
-   NOT covered: extract scripts mixing next() and next_back() (full statement: the same with
-   XExtract lo hi p (script : list bool); see c04_extract_mixed_refines above). *)
+   NOT covered BY THIS THEOREM: extract scripts mixing next() and next_back(); they are covered by c04_program_refines
+   (XExtract lo hi p (script : list bool)) below. *)
 Theorem c04_program_refines_onedir_partial : forall K V (cmp : K -> K -> comparison), OrderLaws cmp ->
   forall (ksize : K -> N) (vsize : V -> N) (fixed_k fixed_v : bool) (page_size : N)
          (sep : K -> K -> K) (inplace : list (K * V) -> K -> V -> bool) (blank : V -> V) (entry_eqb : K * V -> K * V -> bool),
@@ -492,7 +490,7 @@ Proof. vm_compute. repeat split; reflexivity. Qed.
    over [3,20) with the predicate k mod 3 <> 0; entries are removed at both ends (4 5 7 8 10 from the front,
    19 17 14 13 11 from the back), the two ends meet INSIDE the leaf [8 10 11 12] (pending batches of both ends in
    one leaf), then four more calls return None.  The RangeMut machine agrees with the specification and the result
-   satisfies the checker.  The general statement is c04_extract_mixed_refines (comment above; not proved). *)
+   satisfies the checker.  The general statement is c04_extract_mixed_refines (proved, below). *)
 Definition ex_mod3 (k : key) (v : bytes) : bool := match k with KU64 n => negb (N.eqb (n mod 3) 0) | _ => false end.
 Definition ex_alt : list bool := [true; false; true; false; true; false; true; false; true; false; true; false; true; false].
 Example c04_instance_extract_mixed_agrees :
@@ -512,6 +510,82 @@ Example c04_nonvacuous_retain :
   tree_checkb key_cmp bt1 = true /\
   abs_tree bt1 = SortedMap.retain_in key_cmp (Included (KU64 3)) (Excluded (KU64 20)) ex_pred (abs_tree ex_built) /\
   tlen bt1 = 12%N /\ length (bt_leaves bt1) = 4%nat /\ length (bt_leaves ex_built) = 7%nat.
+Proof. vm_compute. repeat split; reflexivity. Qed.
+
+(* ---- extract_if / extract_from_if consumed from BOTH ends in ANY order (round 4) ------------------------------
+   c04_extract_mixed_refines: for EVERY script (list bool; true = next(), false = next_back()) followed by drop/close, the
+   yields of the RangeMut / BtreeExtractIf machine over the logical tree equal the specification's double-ended iterator
+   and the final contents equal the specification's; the invariant is kept.  Covered: park (bound = Included(next key) /
+   Excluded(leaf boundary key), leaf snapshot + pending batch, the open coalescing run spliced), activate (reseek by the
+   own bound; snapshot match => the batch is re-attached at the same gap; no match => resolve_batch = delete_key per
+   snapshot entry, then reseek), entry_in_range against the peer's moving bound, both ends pending in one leaf, close with
+   either end live / pending / parked (flush_end leaves a junk bound: weak invariant).  Proved for every lawful store
+   (ScanMixP.extract_mixed_ok: the laws of ScanP.v / ScanBackP.v plus ONE new law `seek_before_post`, which is
+   c04_seek_before_strict for the tree); visible hypothesis: the entry equality used by snapshot_matches is sound
+   (entry_eqb x y = true -> x = y; true for the oracle's: ex_entry_eqb_sound).
+   c04_program_refines: programs over ALL constructors -- everything of ProgramX.xop (XM) plus XExtract lo hi p script
+   with an ARBITRARY script.  The older partial names are kept. *)
+From RV Require Import Base.BytesP Btree.Scan Btree.ScanTree Btree.ScanP Btree.RetainTreeP Btree.ProgramX Btree.ProgramXE Btree.SeekStrictP Btree.ScanMixP Btree.MixTreeP.
+
+Theorem c04_seek_before_strict : forall K V (cmp : K -> K -> comparison), OrderLaws cmp ->
+  forall (bt : @btree K V) (k : K), TreeInv cmp bt -> bt_leaves bt <> [] ->
+  let '(j, _) := t_seek cmp bt (PBefore k) in
+  Forall (fun e : K * V => cmp k (fst e) = Lt) (ScanP.post (@bt_leaves K V) bt j).
+Proof. exact (@t_seek_before_strict). Qed.
+
+Theorem c04_extract_mixed_refines : forall K V (cmp : K -> K -> comparison), OrderLaws cmp ->
+  forall (ksize : K -> N) (vsize : V -> N) (fixed_k fixed_v : bool) (page_size : N) (sep : K -> K -> K),
+  valid_sep cmp sep ->
+  forall (entry_eqb : K * V -> K * V -> bool), (forall x y, entry_eqb x y = true -> x = y) ->
+  forall (bt : @btree K V) lo hi p (script : list bool), TreeInv cmp bt ->
+  let '(os, x) := t_xrun cmp ksize vsize fixed_k fixed_v page_size sep entry_eqb p script (t_extract_new bt lo hi) in
+  let '(os', st) := ext_run p script (ext_begin cmp (abs_tree bt) lo hi) in
+  os = os' /\
+  TreeInv cmp (t_extract_close cmp ksize vsize fixed_k fixed_v page_size sep entry_eqb x) /\
+  abs_tree (t_extract_close cmp ksize vsize fixed_k fixed_v page_size sep entry_eqb x) = ext_finish st.
+Proof. exact (@t_extract_mixed_refines). Qed.
+
+Theorem c04_program_refines : forall K V (cmp : K -> K -> comparison), OrderLaws cmp ->
+  forall (ksize : K -> N) (vsize : V -> N) (fixed_k fixed_v : bool) (page_size : N) (sep : K -> K -> K),
+  valid_sep cmp sep ->
+  forall (entry_eqb : K * V -> K * V -> bool), (forall x y, entry_eqb x y = true -> x = y) ->
+  forall (inplace : list (K * V) -> K -> V -> bool) (blank : V -> V)
+         (ops : list (@xopm K V)) (bt : @btree K V), TreeInv cmp bt ->
+  let '(xs, bt') := run_xm cmp ksize vsize fixed_k fixed_v page_size sep entry_eqb inplace blank ops bt in
+  TreeInv cmp bt' /\ (xs, abs_tree bt') = spec_run_xm cmp ops (abs_tree bt).
+Proof. exact (@program_xm_refines_lemma). Qed.
+
+(* the oracle's entry equality (ShapeInst.entry_eqb: key order Eq and value bytes equal) is sound *)
+Lemma ex_entry_eqb_sound : forall x y : key * bytes, entry_eqb x y = true -> x = y.
+Proof.
+  intros [k1 v1] [k2 v2]. unfold entry_eqb. cbn [fst snd].
+  destruct (key_cmp k1 k2) eqn:Ek; try discriminate. intros Hb.
+  apply (cmp_eq_iff key_cmp c04_key_order_laws) in Ek. subst k2. f_equal.
+  unfold ShapeInst.bytes_eqb in Hb. destruct (lex_cmp v1 v2) eqn:Ev; [now apply lex_cmp_eq|discriminate|discriminate].
+Qed.
+
+Example c04_nonvacuous_seek_before_strict :
+  let '(j, i) := t_seek key_cmp ex_built (PBefore (KU64 13)) in
+  List.map fst (nth j (bt_leaves ex_built) []) = [KU64 13; KU64 14; KU64 15; KU64 17] /\ i = 0%nat.
+Proof. vm_compute. split; reflexivity. Qed.
+
+Definition ex_mixed : list bool := [true; true; false; true; false; false; false; true; true; false; true; true; false; true; false; true].
+Example c04_nonvacuous_extract_mixed :
+  let '(os, x) := t_xrun key_cmp key_size val_size true false 64%N ex_sep entry_eqb ex_mod3 ex_mixed
+                    (t_extract_new ex_built (Excluded (KU64 2)) (Included (KU64 19))) in
+  let bt1 := t_extract_close key_cmp key_size val_size true false 64%N ex_sep entry_eqb x in
+  (os, abs_tree bt1) = extract_script key_cmp (abs_tree ex_built) (Excluded (KU64 2)) (Included (KU64 19)) ex_mod3 ex_mixed /\
+  tree_checkb key_cmp bt1 = true /\ tree_checkb key_cmp ex_built = true /\ N.ltb (tlen bt1) (tlen ex_built) = true.
+Proof. vm_compute. repeat split; reflexivity. Qed.
+
+Example c04_nonvacuous_program :
+  let ops := [XExtract (Included (KU64 3)) (Excluded (KU64 20)) ex_mod3 ex_alt;
+              XM (XBase (TInsert (KU64 9) [9]%N));
+              XExtract Unbounded Unbounded ex_odd ex_mixed;
+              XM (XRetainIn (Included (KU64 1)) (Included (KU64 6)) ex_pred);
+              XM (XBase (TQuery QLen))] in
+  let '(xs, bt1) := run_xm key_cmp key_size val_size true false 64%N ex_sep entry_eqb (fun _ _ _ => false) (fun v => v) ops ex_built in
+  (xs, abs_tree bt1) = spec_run_xm key_cmp ops (abs_tree ex_built) /\ tree_checkb key_cmp bt1 = true.
 Proof. vm_compute. repeat split; reflexivity. Qed.
 
 (* ------------------------------------------------------------------------------------------------
